@@ -142,6 +142,9 @@ ADD4 = {
  "C20": ("method-call census on package-level library objects", "Package-level objects shared by all runtimes are of types documented as safe for concurrent use."),
 }
 ADD5 = {
+ "C04": ("separator path search over the parser's list loops", "Between two elements of a comma-separated list every parser path passes a comma test or expect(COMMA)."),
+ "C15": ("reflect.Kind dataflow at every Convert; representation census of string payloads", "Every reflect Convert is numeric/string/bool to the same class, or under CanConvert, or under ConvertibleTo with a non-array target; the raw payload of a possibly-string Value never leaves a function unasserted."),
+ "C16": ("reflect.Kind dataflow at every Convert; nil-safe promoted field walks", "Convert cannot panic for any script operand; fields promoted through embedded pointers are reached with FieldByIndexErr."),
  "C18": ("path simulation of every recover handler for the interrupt marker type", "A panic of the function received on Otto.Interrupt is wrapped in a marker at the poll sites, re-panicked unchanged by the try statement's handler and unwrapped by the handlers directly under the exported API."),
 }
 for _pid, (_t, _d) in ADD5.items():
